@@ -18,8 +18,10 @@ for c, ls in zip(cases, per):
     m = " ".join(next(it) for _ in ls)
     if not ls:
         continue
+    if hasattr(mod, "canon_model"):
+        m = mod.canon_model(m)
     i = mod.observe(c)
-    if i != m and not m.startswith("unsupported"):
+    if i != m and "unsupported" not in m:
         tot += 1
         if shown < n:
             shown += 1
